@@ -168,11 +168,11 @@ def run_safety(case):
             mx = max(counts.values())
             res.count("models_checked")
             if m.feat_pass != mx or counts.get((m.best_feat, bool(m.desc))) != mx:
-                res.violate("recorded_best_feature_not_argmax", "", recorded=[str(m.best_feat), int(m.feat_pass), bool(m.desc)],
+                res.violate("recorded_best_feature_not_argmax", "", recorded=[str(m.best_feat), None if m.feat_pass is None else int(m.feat_pass), None if m.desc is None else bool(m.desc)],
                             oracle_max=mx, oracle_best=[k for k, v in counts.items() if v == mx][:3], **extra)
                 return res
             a_feat = max(a_feat, mx)
-            best_pairs.add((m.best_feat, bool(m.desc), int(m.feat_pass)))
+            best_pairs.add((m.best_feat, bool(m.desc), int(m.feat_pass or 0)))
         # (1) returned scores
         ret = [np.asarray(s, dtype=float).reshape(-1) for s in out["scores"]]
         descs = list(out["descs"])
